@@ -33,6 +33,8 @@ THEOREMS = ['GV.GeoJson.' + t for t in (
     'missing_geometry_rejected',
     # collections
     'collection_export_shape', 'collection_roundtrip', 'collection_import_pure', 'track_roundtrip',
+    # export histories
+    'reexport_set_dt', 'reexport_strip_dt', 'reexport_set_property',
     # the runtime assumption is consistent
     'demoRt_lawful')]
 
@@ -510,6 +512,13 @@ def rfc_verdict(shape, a, doc):
                     return 'bad:bbox-order'
     elif 'bbox' in geom:
         return 'bad:bbox-unrequested'
+    return props_verdict(shape, a, doc)
+
+
+def props_verdict(shape, a, doc):
+    """the `properties` member (and the extra members) of an exported Feature against the shape AS IT IS NOW:
+    time bounds of the current dt, current user properties, the caller's override on top"""
+    extra = a.get('extra') or {}
     props = doc.get('properties')
     if not isinstance(props, dict):
         return 'bad:properties'
@@ -696,8 +705,131 @@ def op_crt(a):
     return f'ok {enc([shape_enc(x) for x in back.geoshapes])} eq={tf(eq)}'
 
 
+# ---- export histories: observe - update in place - observe again, on live objects -------------------------------
+
+
+def _scramble(x):
+    if isinstance(x, list):
+        x.reverse()
+        for e in x:
+            _scramble(e)
+        x.append(999)
+    elif isinstance(x, dict):
+        for e in x.values():
+            _scramble(e)
+        x['zz_scribble'] = [1]
+
+
+def _mutdoc(doc):
+    """the caller scribbles all over a document it was handed earlier"""
+    feats = doc.get('features') if isinstance(doc.get('features'), list) else [doc]
+    for f in feats:
+        if isinstance(f.get('properties'), dict):
+            _scramble(f['properties'])
+        if isinstance(f.get('geometry'), dict):
+            _scramble(f['geometry'].get('coordinates'))
+            f['geometry']['type'] = 'Scribble'
+        f['id'] = 'scribbled'
+    if feats is doc.get('features'):
+        feats.reverse()
+
+
+def _fork(s, how):
+    import pickle
+    if how == 'copy':
+        return s.copy()
+    if how == 'deepcopy':
+        return copy.deepcopy(s)
+    return pickle.loads(pickle.dumps(s))
+
+
+def _feature_verdict(shape, st, doc, idx=None):
+    try:
+        json.dumps(doc)
+    except (TypeError, ValueError):
+        return 'bad:not-serialisable'
+    a = {'ov': st.get('ov'), 'extra': dict(st.get('extra') or {})}
+    if idx is not None:
+        a['extra'] = {'id': idx, **a['extra']}
+    return props_verdict(shape, a, doc)
+
+
+def op_hist(a):
+    objs = [build(s) for s in a.get('objs', [])]
+    colls, docs, obs, bad, imported = [], [], [], [], []
+    for n, st in enumerate(a['steps']):
+        op = st['op']
+        inplace = st.get('inplace', True)
+        try:
+            if op == 'export':
+                docs.append(None)
+                s = objs[st['i']]
+                doc = s.to_geojson(**kwargs_of(st))
+                docs[-1] = doc
+                obs.append(enc(doc))
+                v = _feature_verdict(s, st, doc)
+                if v != 'ok':
+                    bad.append(f'{v}@{n}')
+            elif op in ('set_dt', 'strip_dt', 'buffer_dt', 'set_property'):
+                s = objs[st['i']]
+                if op == 'set_dt':
+                    r = s.set_dt(build_dt(st), inplace=inplace)
+                elif op == 'strip_dt':
+                    r = s.strip_dt(inplace=inplace)
+                elif op == 'buffer_dt':
+                    r = s.buffer_dt(timedelta(microseconds=st['us']), inplace=inplace)
+                else:
+                    r = s.set_property(st['key'], copy.deepcopy(st['val']), inplace=inplace)
+                if inplace:
+                    if r is not s:
+                        bad.append(f'bad:inplace-returned-another-object@{n}')
+                else:
+                    if r is s:
+                        bad.append(f'bad:copy-is-the-same-object@{n}')
+                    objs.append(r)
+            elif op == 'fork':
+                objs.append(_fork(objs[st['i']], st['how']))
+            elif op == 'mutdoc':
+                if docs[st['j']] is not None:
+                    _mutdoc(docs[st['j']])
+            elif op == 'import':
+                doc = docs[st['j']]
+                before = enc(doc)
+                arg = json.dumps(doc) if st.get('via') == 'text' else doc
+                objs.append(importer(st['kind'])(arg))
+                imported.append((st['j'], before))
+                obs.append('imported')
+            elif op == 'mkcoll':
+                from geostructures.collections import FeatureCollection, Track
+                colls.append(None)
+                members = [objs[i] for i in st['is']]
+                colls[-1] = (Track if st.get('track') else FeatureCollection)(members)
+            elif op == 'cexport':
+                docs.append(None)
+                c = colls[st['c']]
+                if c is None:
+                    obs.append('ERR:NoColl')
+                    continue
+                doc = c.to_geojson(**kwargs_of(st))
+                docs[-1] = doc
+                obs.append(enc(doc))
+                for idx, (m, f) in enumerate(zip(c.geoshapes, doc['features'])):
+                    v = _feature_verdict(m, st, f, idx)
+                    if v != 'ok':
+                        bad.append(f'{v}@{n}.{idx}')
+            else:
+                raise common.InfraError('unknown history step ' + op)
+        except common.InfraError:
+            raise
+        except Exception as e:  # noqa
+            obs.append(_err(e))
+    same = all(enc(docs[j]) == before for j, before in imported)
+    return ('ok ' + ' ; '.join(obs) + ' rfc=' + ('ok' if not bad else bad[0]) +
+            ' docs=' + ('same' if same else 'changed'))
+
+
 OPS = {'export': op_export, 'rfc': op_rfc, 'import': op_import, 'twice': op_twice, 'setprop': op_setprop,
-       'rt': op_rt, 'cexport': op_cexport, 'crt': op_crt}
+       'rt': op_rt, 'cexport': op_cexport, 'crt': op_crt, 'hist': op_hist}
 
 
 def _split(line):
@@ -722,6 +854,8 @@ def spec(line):
         return 'IS ok'
     if op in ('export', 'cexport'):
         return None
+    if op == 'hist':
+        return 'REQ rfc=ok docs=same'
     a = dec(rest)
     if op == 'rt':
         return 'REQ eq=T dt=T props=T' if a.get('wf', True) else None
@@ -1193,6 +1327,264 @@ def malformed_docs(rng):
     return out
 
 
+# --- export histories ----------------------------------------------------------------------------------
+
+GJ_TYPE = {'polygon': 'Polygon', 'box': 'Polygon', 'curved': 'Polygon', 'ring': 'Polygon', 'line': 'LineString',
+           'point': 'Point', 'mpoly': 'MultiPolygon', 'mline': 'MultiLineString', 'mpoint': 'MultiPoint'}
+RESERVED = ('datetime_start', 'datetime_end')
+
+
+class Hist:
+    """builds one history (a list of steps) while tracking, abstractly, what the live objects look like: how many
+    there are, their time bounds (a Track needs them; buffer_dt fails without), their GeoJSON type, and which
+    documents may be re-imported / scribbled on"""
+
+    def __init__(self, rng, srcs, K):
+        self.rng, self.K = rng, K
+        self.objs = srcs
+        self.dts = [tuple(s['dt']) if s.get('dt') else None for s in srcs]
+        self.types = [GJ_TYPE[s['g']['t']] for s in srcs]
+        self.taint = [any(k in (s.get('props') or {}) for k in RESERVED) or
+                      enc(_isoify(s.get('props') or {})) != enc(s.get('props') or {}) for s in srcs]
+        self.docs = []          # per document: dict(kind, obj, importable)
+        self.colls = []         # per collection: list of member indices or None
+        self.mutated, self.imported = set(), set()
+        self.steps = []
+
+    def n(self):
+        return len(self.dts)
+
+    def export(self, i, plain=False):
+        st = {'op': 'export', 'i': i, 'k': self.rng.choice([None, self.K])}
+        if not plain:
+            if self.rng.random() < 0.2:
+                st['bbox'] = True
+            if self.rng.random() < 0.15:
+                st['ov'] = g_props(self.rng, n=1)
+            if self.rng.random() < 0.15:
+                st['extra'] = {'id': self.rng.choice([4, 'f'])}
+        self.steps.append(st)
+        self.docs.append({'kind': 'single', 'obj': i,
+                          'importable': not self.taint[i] and 'ov' not in st})
+        return len(self.docs) - 1
+
+    def _new(self, i, dt):
+        self.dts.append(dt)
+        self.types.append(self.types[i])
+        self.taint.append(self.taint[i])
+        return self.n() - 1
+
+    def mutate(self, i, kind=None, inplace=None):
+        """returns the index of the object that carries the update (i, or the new copy), or None if it fails"""
+        rng = self.rng
+        kind = kind or rng.choice(['set_dt', 'set_dt', 'strip_dt', 'buffer_dt', 'set_property', 'set_property'])
+        inplace = (rng.random() < 0.85) if inplace is None else inplace
+        st = {'op': kind, 'i': i}
+        new_dt, ok, taint = self.dts[i], True, False
+        if kind == 'set_dt':
+            d = {}
+            g_dt(rng, d, rng.choice(['none', 'instant', 'instant-ti', 'interval', 'interval']))
+            st.update(d)
+            new_dt = tuple(d['dt']) if d.get('dt') else None
+        elif kind == 'strip_dt':
+            new_dt = None
+        elif kind == 'buffer_dt':
+            st['us'] = rng.choice([0, 1, 10 ** 6, 3600 * 10 ** 6, -1, -10 ** 6, -10 ** 15])
+            if new_dt is None or new_dt[1] + st['us'] < new_dt[0] - st['us']:
+                ok = False
+            else:
+                new_dt = (new_dt[0] - st['us'], new_dt[1] + st['us'])
+        else:
+            st['key'] = rng.choice(KEYS + ['colour', 'when'] + ([RESERVED[0]] if rng.random() < 0.1 else []))
+            st['val'] = g_value(rng)
+            taint = st['key'] in RESERVED
+        if not inplace:
+            st['inplace'] = False
+        self.steps.append(st)
+        if not ok:
+            return None
+        if inplace:
+            self.dts[i] = new_dt
+            self.taint[i] = self.taint[i] or taint
+            return i
+        j = self._new(i, new_dt)
+        self.taint[j] = self.taint[j] or taint
+        return j
+
+    def fork(self, i, how=None):
+        self.steps.append({'op': 'fork', 'i': i, 'how': how or self.rng.choice(['copy', 'deepcopy', 'pickle'])})
+        return self._new(i, self.dts[i])
+
+    def mutdoc(self, j):
+        if j in self.imported:
+            return False
+        self.steps.append({'op': 'mutdoc', 'j': j})
+        self.mutated.add(j)
+        return True
+
+    def imp(self, j):
+        d = self.docs[j]
+        if d['kind'] != 'single' or not d['importable'] or j in self.mutated:
+            return None
+        i = d['obj']
+        st = {'op': 'import', 'j': j, 'kind': self.types[i] if self.rng.random() < 0.6 else 'parse'}
+        if st['kind'] == 'parse' and self.rng.random() < 0.5:
+            st['via'] = 'text'
+        self.steps.append(st)
+        self.imported.add(j)
+        return self._new(i, d['dt'])
+
+    def mkcoll(self, idxs, track):
+        self.steps.append({'op': 'mkcoll', 'is': list(idxs), 'track': track})
+        ok = not track or all(self.dts[i] is not None for i in idxs)
+        self.colls.append(list(idxs) if ok else None)
+        return len(self.colls) - 1
+
+    def cexport(self, c):
+        st = {'op': 'cexport', 'c': c, 'k': self.rng.choice([None, self.K])}
+        if self.rng.random() < 0.2:
+            st['ov'] = g_props(self.rng, n=1)
+        self.steps.append(st)
+        self.docs.append({'kind': 'coll'})
+        return len(self.docs) - 1
+
+    def line(self):
+        return line_of('hist', {'objs': self.objs, 'steps': self.steps})
+
+
+def _export_doc_dt(h, j):
+    """remember the time bounds the exported object had when document j was written (for a later import)"""
+    d = h.docs[j]
+    if d['kind'] == 'single':
+        d['dt'] = h.dts[d['obj']]
+
+
+def g_history(rng):
+    K = rng.choice([3, 4, 6])
+    kinds = ['polygon', 'polygon', 'box', 'circle', 'wedge', 'ring', 'line', 'point', 'mpoly', 'mline', 'mpoint']
+    srcs = [fill(g_src(rng, kinds=[rng.choice(kinds)]), K) for _ in range(rng.choice([1, 1, 2, 3]))]
+    h = Hist(rng, srcs, K)
+    for i in range(h.n()):
+        if rng.random() < 0.85:
+            _export_doc_dt(h, h.export(i))                      # first observation
+    for _ in range(rng.choice([2, 3, 4, 6])):
+        r = rng.random()
+        i = rng.randrange(h.n())
+        if r < 0.45:
+            t = h.mutate(i)
+            if rng.random() < 0.85:
+                _export_doc_dt(h, h.export(i))
+            if t is not None and t != i:
+                _export_doc_dt(h, h.export(t))
+        elif r < 0.6:
+            f = h.fork(i)
+            t = h.mutate(rng.choice([i, f]))
+            _export_doc_dt(h, h.export(i))
+            _export_doc_dt(h, h.export(f))
+        elif r < 0.72 and h.docs:
+            j = rng.randrange(len(h.docs))
+            if h.mutdoc(j) and h.docs[j]['kind'] == 'single':
+                _export_doc_dt(h, h.export(h.docs[j]['obj']))
+        elif r < 0.85 and h.docs:
+            t = h.imp(rng.randrange(len(h.docs)))
+            if t is not None:
+                if rng.random() < 0.7:
+                    h.mutate(t, inplace=True)
+                _export_doc_dt(h, h.export(t))
+        else:
+            idxs = [rng.randrange(h.n()) for _ in range(rng.choice([1, 2, 3]))]
+            idxs = list(dict.fromkeys(idxs))
+            have = all(h.dts[x] is not None for x in idxs)
+            c = h.mkcoll(idxs, track=(have and rng.random() < 0.5) or rng.random() < 0.05)
+            h.cexport(c)
+            if h.colls[c] is not None:
+                m = rng.choice(idxs)
+                h.mutate(m, inplace=True)
+                h.cexport(c)
+                if rng.random() < 0.5:
+                    _export_doc_dt(h, h.export(m))
+    for i in range(h.n()):
+        if rng.random() < 0.5:
+            _export_doc_dt(h, h.export(i, plain=True))
+    return h.line()
+
+
+def small_histories(rng):
+    """every kind x every in-place update x prior dt none/interval x inplace True/False, each sandwiched between
+    exports; the same through a collection; export twice / scribble on the first document / export again;
+    copies, deep copies and pickles taken AFTER the first export"""
+    K = 4
+    geoms = [
+        {'t': 'point', 'p': [1.0, 2.0]},
+        {'t': 'line', 'vs': [[0.0, 0.0], [1.0, 1.0, 0.0]]},
+        {'t': 'polygon', 'raw': [[0.0, 0.0], [2.0, 0.0], [1.0, 1.0]], 'holes': [{'t': 'polygon', 'raw': [[0.5, 0.25], [1.0, 0.75], [1.5, 0.25]]}]},
+        {'t': 'mpoint', 'ps': [[0.0, 0.0], [1.0, 1.0]]},
+        {'t': 'curved', 'py': ['circle', [0.5, 0.25], 1000.0]},
+        {'t': 'box', 'nw': [0.0, 1.0], 'se': [1.0, 0.0]},
+    ]
+    t0, t1, t2 = BASE_US, BASE_US + 86400 * 10 ** 6, BASE_US + 4 * 86400 * 10 ** 6
+    updates = [
+        {'op': 'set_dt', 'dt': [t1, t2]}, {'op': 'set_dt', 'dt': [t2, t2], 'inst': True, 'tz': 60}, {'op': 'set_dt', 'dt': None},
+        {'op': 'strip_dt'}, {'op': 'buffer_dt', 'us': 3600 * 10 ** 6}, {'op': 'buffer_dt', 'us': -10 ** 15},
+        {'op': 'set_property', 'key': 'colour', 'val': 'red'}, {'op': 'set_property', 'key': 'n', 'val': [1, {'a': None}]},
+        {'op': 'set_property', 'key': 'when', 'val': mkdt(str(t2))},
+    ]
+    out = []
+    for g in geoms:
+        for dt0 in (None, [t0, t1]):
+            for upd in updates:
+                for inplace in (True, False):
+                    src = fill({'g': copy.deepcopy(g), 'dt': dt0, 'props': {'n': 1, 'tags': ['a', 'b']}}, K)
+                    u = dict(upd, i=0)
+                    if not inplace:
+                        u['inplace'] = False
+                    fails = upd['op'] == 'buffer_dt' and (dt0 is None or upd['us'] < 0)
+                    steps = [{'op': 'export', 'i': 0, 'k': None}, u, {'op': 'export', 'i': 0, 'k': None}]
+                    if not inplace and not fails:
+                        steps.append({'op': 'export', 'i': 1, 'k': K})
+                    out.append(line_of('hist', {'objs': [src], 'steps': steps}))
+            # through a collection, a member updated between two collection exports
+            for upd in updates[:4] + updates[6:7]:
+                a = fill({'g': copy.deepcopy(g), 'dt': dt0, 'props': {'n': 1}}, K)
+                b = fill({'g': {'t': 'point', 'p': [5.0, 5.0]}, 'dt': [t0, t0], 'props': {}}, K)
+                steps = [{'op': 'mkcoll', 'is': [0, 1], 'track': False}, {'op': 'cexport', 'c': 0, 'k': None},
+                         dict(upd, i=0), {'op': 'cexport', 'c': 0, 'k': None}, {'op': 'export', 'i': 0, 'k': None}]
+                out.append(line_of('hist', {'objs': [a, b], 'steps': steps}))
+            # export twice, scribble on the first document, export again; then the same with derived objects
+            src = fill({'g': copy.deepcopy(g), 'dt': dt0, 'props': {'n': 1, 'tags': ['a', ['b']], 'd': {'k': [1]}}}, K)
+            steps = [{'op': 'export', 'i': 0, 'k': None}, {'op': 'export', 'i': 0, 'k': None}, {'op': 'mutdoc', 'j': 0},
+                     {'op': 'export', 'i': 0, 'k': None}, {'op': 'mkcoll', 'is': [0], 'track': False},
+                     {'op': 'cexport', 'c': 0, 'k': None}, {'op': 'mutdoc', 'j': 3}, {'op': 'cexport', 'c': 0, 'k': None},
+                     {'op': 'export', 'i': 0, 'k': None}]
+            out.append(line_of('hist', {'objs': [src], 'steps': steps}))
+            for how in ('copy', 'deepcopy', 'pickle'):
+                src = fill({'g': copy.deepcopy(g), 'dt': dt0, 'props': {'n': 1}}, K)
+                steps = [{'op': 'export', 'i': 0, 'k': None}, {'op': 'fork', 'i': 0, 'how': how},
+                         {'op': 'set_dt', 'i': 1, 'dt': [t1, t2]}, {'op': 'set_property', 'i': 1, 'key': 'c', 'val': 1},
+                         {'op': 'export', 'i': 1, 'k': None}, {'op': 'export', 'i': 0, 'k': None},
+                         {'op': 'strip_dt', 'i': 0}, {'op': 'export', 'i': 0, 'k': None}, {'op': 'export', 'i': 1, 'k': None}]
+                out.append(line_of('hist', {'objs': [src], 'steps': steps}))
+            # import what was exported, update the imported shape, export it; the source document stays as it was
+            src = fill({'g': copy.deepcopy(g), 'dt': dt0, 'props': {'n': 1, 'tags': ['a']}}, K)
+            for kind, via in ((GJ_TYPE[g['t']], None), ('parse', 'text')):
+                imp = {'op': 'import', 'j': 0, 'kind': kind}
+                if via:
+                    imp['via'] = via
+                steps = [{'op': 'export', 'i': 0, 'k': None}, imp, {'op': 'export', 'i': 1, 'k': None},
+                         {'op': 'set_dt', 'i': 1, 'dt': [t2, t2]}, {'op': 'set_property', 'i': 1, 'key': 'tags', 'val': 'x'},
+                         {'op': 'export', 'i': 1, 'k': None}, {'op': 'export', 'i': 0, 'k': None}]
+                out.append(line_of('hist', {'objs': [src], 'steps': steps}))
+    return out
+
+
+def tag_hist(ln, ans):
+    op, rest = _split(ln)
+    a = dec(rest)
+    ops = sorted({st['op'] + ('' if st.get('inplace', True) else ':copy') for st in a['steps']})
+    return ['hist:' + o for o in ops] + ['hist-objs:%d' % len(a.get('objs', [])),
+                                         'hist:' + ('ok' if 'rfc=ok' in ans and 'docs=same' in ans else 'flagged')]
+
+
 # ----------------------------------------------------------------------------------------------
 
 
@@ -1401,6 +1793,11 @@ def check(run):
     run.run_cases('collection-roundtrip', lines_crt, impl, spec, tag=tag_coll, spec_compare=spec_cmp)
     run.run_cases('collection-import', lines_ci, impl, spec, tag=tag_import, spec_compare=spec_cmp)
 
+    # ---- export histories: observe, update in place, observe again (live objects, copies, imports, collections) ----
+    run.run_cases('history-small', small_histories(rng), impl, spec, tag=tag_hist, spec_compare=spec_cmp)
+    run.run_cases('history', [g_history(rng) for _ in range(run.scale(120, 2500))], impl, spec, tag=tag_hist,
+                  spec_compare=spec_cmp)
+
     return run.finish(
         rule='a case is one protocol line: (shape description x to_geojson keyword arguments) for the export, rfc '
              'and round-trip streams, one GeoJSON document x importer for the import streams. Exhaustive part: a '
@@ -1408,7 +1805,11 @@ def check(run):
              '(both orientations, a zero-area hole), three dt kinds; the rest is seeded random over every shape kind '
              '(polygon 0-2 holes incl. box and circle holes, box, circle, ellipse, ring, wedge, linestring, point, '
              'three multi kinds), dt none/instant/interval in several UTC offsets, nested JSON-native properties, '
-             'k in {None, 3..40}, include_bbox, properties override, extra members. All cases are non-trivial; '
+             'k in {None, 3..40}, include_bbox, properties override, extra members. History cases: one line = a list of '
+             'steps on live objects (export, set_dt / strip_dt / buffer_dt / set_property in place or inplace=False, copy / '
+             'deepcopy / pickle, scribbling on an earlier returned document, importing an exported document and updating '
+             'the imported shape, collection and Track export before and after a member update); every export is compared '
+             'with the model applied to the updated fields and judged against the live object. All cases are non-trivial; '
              'distinct by line.',
         assumptions=[
             'datetime.isoformat / fromisoformat round-trip an aware instant (Rt.Lawful.parse_iso); str.upper maps the six '
